@@ -63,6 +63,22 @@ FACTS = {
         r"func \(m \*Manager\) handleGNMIUpdate\(.*?\n}\n",
         r"case \*gpb\.SubscribeResponse_Update:\s+if m\.update != nil \{\s+m\.update\(name, v\.Update\)\s+\}\s+case \*gpb\.SubscribeResponse_SyncResponse:\s+if m\.sync != nil \{\s+m\.sync\(name\)",
         "Pipeline.handleGNMIUpdate"),
+    # session ends (Model/Pipeline.lean §9: StepR.reset / StepR.connectError)
+    "manager.handleUpdates calls Reset on every Recv error": (
+        "manager/manager.go",
+        r"func \(m \*Manager\) handleUpdates\(.*?\n}\n",
+        r"resp, err := sc\.Recv\(\)\s+if recvTimer != nil \{\s+recvTimer\.Stop\(\)\s+\}\s+if err != nil \{\s+if m\.reset != nil \{\s+m\.reset\(ta\.name\)\s+\}\s+return err\s+\}",
+        "Pipeline.Sys.reset: every way a session ends (error, io.EOF, timeout, forced reconnect) is a Recv error, "
+        "and nothing returns between Recv and the Reset callback"),
+    "manager.monitor records the error of an ended attempt": (
+        "manager/manager.go",
+        r"func \(m \*Manager\) monitor\(.*?\n}\n",
+        r"defer func\(\) \{\s+if err != nil && m\.connectError != nil \{\s+m\.connectError\(ta\.name, err\)",
+        "Pipeline.Sys.connectError after a session end (Pipeline.restartSteps)"),
+    "collector wires ConnectError to the cache": (
+        "cmd/gnmi_collector/gnmi_collector.go",
+        r"manager\.NewManager\(manager\.Config\{.*?\n\t\}\)", r"ConnectError:\s+c\.cache\.ConnectError,",
+        "Pipeline.Sys.connectError"),
 }
 
 
